@@ -6,7 +6,7 @@ func init() {
 		gen:    func(seed uint64, th bool) *Plan { return genFramePlan(seed, th) },
 		chk:    newFrameChecker,
 		runner: runFrameTwin,
-		rule:   "twin runs of one plan: 1-3 pipelined connections (depth 1-8) on disjoint key spaces send 1-40 commands of all families with binary arguments (empty, CR, LF, CRLF, NUL, non-UTF-8, RESP look-alikes, values around 8 KiB and above 64 KiB, unknown commands and error-provoking arguments containing CRLF); once as whole commands with depth 1, once cut into tape-chosen fragments (incl. 1-byte pieces), coalesced into shared segments, with short reads and clock jumps; class all-offsets cuts one frame at every byte offset; oracles: every reply parses as exactly one RESP value in order with nothing left over, replies equal the per-connection reference model (binary read-back), and the reply bytes of the two runs are identical; non-trivial = at least one request was reassembled from several reads or shared a segment with another; distinct = distinct scheduler event sequence; a client that has delivered a complete command plus the start of the next may keep the rest back until every completely delivered command is answered (fault held-until-reply: the reply to a complete command must not wait for more input); 1 in 3 connections sends one request of exactly 1024..65536 bytes in one piece with nothing outstanding before and nothing sent after it until its reply is there",
+		rule:   "twin runs of one plan: 1-3 pipelined connections (depth 1-8) on disjoint key spaces send 1-40 commands of all families with binary arguments (empty, CR, LF, CRLF, NUL, non-UTF-8, RESP look-alikes, values around 8 KiB and above 64 KiB, unknown commands and error-provoking arguments containing CRLF); once as whole commands with depth 1, once cut into tape-chosen fragments (incl. 1-byte pieces), coalesced into shared segments, with short reads and clock jumps; class all-offsets cuts one frame at every byte offset; oracles: every reply parses as exactly one RESP value in order with nothing left over, replies equal the per-connection reference model (binary read-back), and the reply bytes of the two runs are identical; non-trivial = at least one request was reassembled from several reads or shared a segment with another; distinct = distinct scheduler event sequence; a client that has delivered a complete command plus the start of the next may keep the rest back until every completely delivered command is answered (fault held-until-reply: the reply to a complete command must not wait for more input); 1 in 3 connections sends one request of exactly 1024..65536 bytes in one piece with nothing outstanding before and nothing sent after it until its reply is there; requests with 200..1500 elements, the empty value and COPY of it",
 		nontrivial: func(res *RunResult) bool {
 			return res.Extra["reassembled"] >= 1
 		},
@@ -45,7 +45,7 @@ func init() {
 		id:   "C20",
 		gen:  func(seed uint64, th bool) *Plan { return genLifePlan(seed, th) },
 		chk:  newLifeChecker,
-		rule: "1-3 start/stop cycles of an emulator on one port, optionally with a second instance on another port in the same process; before each termination 1-4 clients are brought into different states (idle, request half delivered, inside MULTI with a queue, blocked with timeout 0, not reading large replies, busy pipeline); the termination (Close, or RequestTermination then WaitForTermination) is issued from an admin task at a tape-chosen moment; afterwards every old connection sends further commands, a newcomer tries to connect, a successor is created and started on the same port and a fresh client inspects it; oracles: every lifecycle call returns, nothing sent after termination returned is served, connects are refused while nothing listens, the port binds again at once, the successor is empty and lists only its own connection, the second instance's clients are never closed or starved, see only their own connections and their replies refine their model; non-trivial = a termination happened while at least one client was mid-frame, in MULTI, blocked or not reading; distinct = distinct scheduler event sequence",
+		rule: "1-3 start/stop cycles of an emulator on one port, optionally with a second instance on another port in the same process; before each termination 1-4 clients are brought into different states (idle, request half delivered, inside MULTI with a queue, blocked with timeout 0, not reading large replies, busy pipeline); the termination (Close, or RequestTermination then WaitForTermination) is issued from an admin task at a tape-chosen moment; afterwards every old connection sends further commands, a newcomer tries to connect, a successor is created and started on the same port and a fresh client inspects it; oracles: every lifecycle call returns, nothing sent after termination returned is served, connects are refused while nothing listens, the port binds again at once, the successor is empty and lists only its own connection, the second instance's clients are never closed or starved, see only their own connections and their replies refine their model; non-trivial = a termination happened while at least one client was mid-frame, in MULTI, blocked or not reading; distinct = distinct scheduler event sequence; with two instances, a client of the first may issue CLIENT KILL naming a connection of the second (by id or LADDR); further rules: no command goroutine of a connection takes a step after the termination of its emulator has returned (goroutine starts are schedule points, hook H9), and every connection made before that moment is closed on the server side at the end of the run (connections still in the listener backlog are reset)",
 		nontrivial: func(res *RunResult) bool {
 			return res.Extra["after-close-attempts"] >= 1 && res.Extra["successor-empty"] >= 1
 		},
@@ -64,7 +64,7 @@ func init() {
 		id:   "C19",
 		gen:  func(seed uint64, th bool) *Plan { return genPersistPlan(seed, th) },
 		chk:  newPersistChecker,
-		rule: "an emulator with a persist path; one connection runs a history over databases 0-2 biased to in-place mutators (LSET, LINSERT, LTRIM, SREM, SMOVE, HDEL, EXPIRE, PERSIST, GETEX, SETRANGE), deletions, empty strings and FLUSHDB/FLUSHALL, with the periodic saver running between phases (clock moved 1.1 s, then quiescence); class restart: clean Close (or RequestTermination+WaitForTermination), a new emulator on the same path, the same connection carries on and an observer reads every key of every database; replies and the full stored state (values, order, deadlines) must equal the model, which knows nothing about the restart; class crash: at a chosen stage of a chosen snapshot write the directory is copied as the crash image, plus torn variants (the file in flight cut at 0, 1, half, all-but-one bytes, or at every length when it is short; temp file lost), an emulator is started on each image and each database must equal its previous or its new snapshot; non-trivial = the restart was verified after at least one in-place mutation or deletion, or at least one crash image was checked; distinct = distinct scheduler event sequence",
+		rule: "an emulator with a persist path; one connection runs a history over databases 0-2 biased to in-place mutators (LSET, LINSERT, LTRIM, SREM, SMOVE, HDEL, EXPIRE, PERSIST, GETEX, SETRANGE), deletions, empty strings and FLUSHDB/FLUSHALL, with the periodic saver running between phases (clock moved 1.1 s, then quiescence); class restart: clean Close (or RequestTermination+WaitForTermination), a new emulator on the same path, the same connection carries on and an observer reads every key of every database; replies and the full stored state (values, order, deadlines) must equal the model, which knows nothing about the restart; class crash: at a chosen stage of a chosen snapshot write the directory is copied as the crash image, plus torn variants (the file in flight cut at 0, 1, half, all-but-one bytes, or at every length when it is short; temp file lost), an emulator is started on each image and each database must equal its previous or its new snapshot; non-trivial = the restart was verified after at least one in-place mutation or deletion, or at least one crash image was checked; distinct = distinct scheduler event sequence; key pools include the empty name, binary names and names with line breaks; one periodic save in four is left under way while the next commands arrive; lone writes after the last completed save include writes that only replace a value (HSET of an existing field, HINCRBY(FLOAT), SETRANGE, SETBIT); the emulator restarted on the first crash image lives on: a SET over a connection, a clean stop, another start, the key must be there",
 		nontrivial: func(res *RunResult) bool {
 			return res.Extra["crash-images-checked"] >= 1 || (res.Stats.Faults["emu-new"] >= 1 && res.Stats.Replies >= 8)
 		},
@@ -83,7 +83,7 @@ func init() {
 		id:   "C17",
 		gen:  func(seed uint64, th bool) *Plan { return genScanPlan(seed, th) },
 		chk:  newScanChecker,
-		rule: "a scanner connection runs 1-3 full iterations (SCAN / HSCAN / SSCAN; COUNT 1,2,3,10,1000; MATCH from a small glob grammar; TYPE) on a collection of 0-600 elements while 0-2 mutator connections insert bursts of new elements, delete bursts (so the one-item-per-bucket table doubles and halves) and re-add elements between the scanner's calls, the tape deciding the interleaving; the model (exact, turn-taking) gives for each iteration the elements present at every step and those present at some step; oracle: always-present and matching => returned; returned => present at some step and matching; the iteration ends; non-trivial = an iteration completed during which the table was resized or elements were added/removed; distinct = distinct scheduler event sequence",
+		rule: "a scanner connection runs 1-3 full iterations (SCAN / HSCAN / SSCAN; COUNT 1,2,3,10,1000; MATCH from a small glob grammar; TYPE) on a collection of 0-600 elements while 0-2 mutator connections insert bursts of new elements, delete bursts (so the one-item-per-bucket table doubles and halves) and re-add elements between the scanner's calls, the tape deciding the interleaving; the model (exact, turn-taking) gives for each iteration the elements present at every step and those present at some step; oracle: always-present and matching => returned; returned => present at some step and matching; the iteration ends; non-trivial = an iteration completed during which the table was resized or elements were added/removed; distinct = distinct scheduler event sequence; patterns with ! classes; keys of every type that are gone but still stored (passed deadline, UNLINK) before a SCAN with TYPE; mutators that empty the whole collection or database in mid-iteration (the iteration must still end); every single call is also checked against a per-call SCAN/HSCAN/SSCAN model",
 		nontrivial: func(res *RunResult) bool {
 			return res.Extra["iterations-completed"] >= 1 && (res.Extra["rehash-during-iteration"] >= 1 || res.Stats.Replies > 20)
 		},
@@ -197,7 +197,7 @@ func init() {
 		id:   "C12",
 		gen:  func(seed uint64, th bool) *Plan { return genEndPlan(seed, th) },
 		chk:  newEndChecker,
-		rule: "classes: timeout (all five blocking commands, timeouts 0.001..10 s and 0, clock moved to just before and just past the deadline, repeated on one connection), unblock (CLIENT UNBLOCK id [TIMEOUT|ERROR] on a client known to sit in its blocking select, then on the same client while idle, on an unknown id, with a blocked bystander), close (blocked client closes, is reset or is CLIENT KILLed, then pushes, optionally a live consumer), race (UNBLOCK, CLIENT INFO/LIST, pushes, timers and clock jumps at tape-chosen moments); oracles on simulated time, replies, conservation of pushed elements, follow-up commands, bystanders, and the simulator's livelock/deadlock detection; non-trivial = a timeout was verified against the simulated clock, or an unblock/close/kill hit a client inside the block/wake protocol; distinct = distinct scheduler event sequence",
+		rule: "classes: timeout (all five blocking commands, timeouts 0.001..10 s and 0, clock moved to just before and just past the deadline, repeated on one connection), unblock (CLIENT UNBLOCK id [TIMEOUT|ERROR] on a client known to sit in its blocking select, then on the same client while idle, on an unknown id, with a blocked bystander), close (blocked client closes, is reset or is CLIENT KILLed, then pushes, optionally a live consumer), race (UNBLOCK, CLIENT INFO/LIST, pushes, timers and clock jumps at tape-chosen moments); oracles on simulated time, replies, conservation of pushed elements, follow-up commands, bystanders, and the simulator's livelock/deadlock detection; non-trivial = a timeout was verified against the simulated clock, or an unblock/close/kill hit a client inside the block/wake protocol; distinct = distinct scheduler event sequence; class multi (1 run in 9): 1-4 blocking commands of all five kinds queued in MULTI on empty lists with timeouts 0, 0.01, 1 - EXEC must answer at once, every later command of the connection and of a bystander is answered",
 		nontrivial: func(res *RunResult) bool {
 			e := res.Extra
 			return e["timeouts-exact"]+e["timeout0-waited"]+e["unblocked"]+e["conserved"]+e["race-unblock-ones"] > 0
@@ -249,7 +249,7 @@ func init() {
 		id:   "C08",
 		gen:  func(seed uint64, th bool) *Plan { return genConcPlan("C08", seed, th) },
 		chk:  newLinChecker,
-		rule: "2-4 connections issue 3-12 read-modify-write / multi-key commands each on 2-4 shared keys, every emulator goroutine is scheduled from the tape at each lock boundary and store primitive; the recorded history plus a final read-back of every key is checked for linearizability against the reference model with porcupine; non-trivial = at least 2 commands of different connections overlapped in [invoke, return] and named a common key, and porcupine decided (ok); distinct = distinct scheduler event sequence",
+		rule: "2-4 connections issue 3-12 read-modify-write / multi-key commands each on 2-4 shared keys, every emulator goroutine is scheduled from the tape at each lock boundary and store primitive; the recorded history plus a final read-back of every key is checked for linearizability against the reference model with porcupine; non-trivial = at least 2 commands of different connections overlapped in [invoke, return] and named a common key, and porcupine decided (ok); distinct = distinct scheduler event sequence; KEYS, MSET/DEL/UNLINK of arbitrary keys, and (1 in 4 single-database runs) an all-or-nothing group of three names created and removed as a whole (MSET/MSETNX/DEL) and looked at as a whole (KEYS, EXISTS, MGET, DBSIZE); schedules: uniform walk, stall-one-task with rare-site bias, PCT priorities, and in half of the runs a schedule point after every unlock",
 		nontrivial: func(res *RunResult) bool {
 			return res.Extra["overlaps"] >= 1 && res.Extra["porcupine-ok"] == 1
 		},
@@ -265,7 +265,7 @@ func init() {
 			"invoke = step at which the first request byte was handed to the transport (deliberately early), return = step at which the last reply byte was written",
 		},
 	})
-	seqRule := "one generated single-connection history per run, replies and full stored state compared with the reference model after every command; non-trivial = at least 10 commands were answered, keys of at least 2 types existed and at least one command met a key of another type or an expired-but-stored key; C06 and C07 histories include the bitmap commands (SETBIT, GETBIT, BITCOUNT, BITPOS, BITFIELD, BITFIELD_RO, BITOP), which are writes in place and modelled bit-exactly; distinct = distinct (seed-independent) hash of the command-name sequence and scheduler event sequence"
+	seqRule := "one generated single-connection history per run, replies and full stored state compared with the reference model after every command; non-trivial = at least 10 commands were answered, keys of at least 2 types existed and at least one command met a key of another type or an expired-but-stored key; in 1 of 3 runs every command is wrapped in MULTI/EXEC, in 1 of 5 of those with the clock moved between queueing and EXEC; the hash and set families include single-call HSCAN/SSCAN with MATCH; C06 and C07 histories include the bitmap commands (SETBIT, GETBIT, BITCOUNT, BITPOS, BITFIELD, BITFIELD_RO, BITOP), which are writes in place and modelled bit-exactly; distinct = distinct (seed-independent) hash of the command-name sequence and scheduler event sequence"
 	for _, id := range []string{"C02", "C03", "C04", "C05", "C06", "C07"} {
 		id := id
 		regProp(&propDef{
